@@ -871,9 +871,17 @@ def multiply_no_wrap(db, chk, cfg, rule="P.multiply-no-wrap"):
                 elif init:
                     env[d["name"]] = iv(init[-1])
         elif s.get("kind") == "ReturnStmt":
+            # arithmetic written directly into the returned aggregate ({ lo-expression, hi-expression })
+            def topmost(x):
+                x0 = strip(x)
+                if x0.get("kind") in ("BinaryOperator", "CXXOperatorCallExpr"):
+                    iv(x0)
+                    return
+                for c in kids(x0):
+                    if isinstance(c, dict):
+                        topmost(c)
             for x in kids(s):
-                for leaf in walk(x):
-                    pass
+                topmost(x)
     if n < 8:
         raise AnalysisBroken("Multiply: only %d arithmetic intermediates recognised" % n)
     for txt, mx, node in problems[:1]:
